@@ -294,19 +294,19 @@ func unmarshalGeoJSONAsType(p []byte, dst interface{}) error {
 func (g Geometry) AppendWKT(dst []byte) []byte {
 	switch g.gtype {
 	case TypeGeometryCollection:
-		return (*GeometryCollection)(g.ptr).AppendWKT(dst)
+		return g.MustAsGeometryCollection().AppendWKT(dst)
 	case TypePoint:
-		return (*Point)(g.ptr).AppendWKT(dst)
+		return g.MustAsPoint().AppendWKT(dst)
 	case TypeLineString:
-		return (*LineString)(g.ptr).AppendWKT(dst)
+		return g.MustAsLineString().AppendWKT(dst)
 	case TypePolygon:
-		return (*Polygon)(g.ptr).AppendWKT(dst)
+		return g.MustAsPolygon().AppendWKT(dst)
 	case TypeMultiPoint:
-		return (*MultiPoint)(g.ptr).AppendWKT(dst)
+		return g.MustAsMultiPoint().AppendWKT(dst)
 	case TypeMultiLineString:
-		return (*MultiLineString)(g.ptr).AppendWKT(dst)
+		return g.MustAsMultiLineString().AppendWKT(dst)
 	case TypeMultiPolygon:
-		return (*MultiPolygon)(g.ptr).AppendWKT(dst)
+		return g.MustAsMultiPolygon().AppendWKT(dst)
 	default:
 		panic("unknown geometry: " + g.gtype.String())
 	}
